@@ -1,8 +1,10 @@
 #!/bin/bash
-# tools/eval_mutant.sh <worktree-id> <check> [<check> ...]: run checks against the changed tree in /tmp/wt_<id>
-id=$1; shift
+# tools/eval_mutant.sh <Cxx>[@prefix] <check> [<check> ...]: run checks against the changed tree in /tmp/<prefix>_<Cxx>
+spec=$1; shift; id=${spec%@*}; pre=wt
+case "$spec" in *@*) pre=${spec#*@};; esac
+wtdir=/tmp/${pre}_$id
 for c in "$@"; do
   s=$(date +%s)
-  out=$(HSVERIF_REPO=/tmp/wt_$id ./check $c --tier quick 2>&1); rc=$?
-  echo "mutant=$id check=$c rc=$rc $(( $(date +%s) - s ))s viol=$(echo "$out" | grep -c '^VIOLATION') :: $(echo "$out" | grep -m1 'what:' | cut -c1-220)"
+  out=$(HSVERIF_REPO=$wtdir ./check $c --tier quick 2>&1); rc=$?
+  echo "mutant=$spec check=$c rc=$rc $(( $(date +%s) - s ))s viol=$(echo "$out" | grep -c '^VIOLATION') :: $(echo "$out" | grep -m1 'what:' | cut -c1-220)"
 done
